@@ -37,6 +37,7 @@ where
     ) -> Option<impl ExactSizeIterator<Item = T>> {
         let core_iter = unsafe { iter.mut_iter() };
 
+        let guard = iter.complete_on_unwind();
         let mut i = 0;
         loop {
             match core_iter.next() {
@@ -49,6 +50,7 @@ where
                 break;
             }
         }
+        drop(guard);
 
         let older_count = iter.progress_yielded_counter(self.chunk_size());
         assert_eq!(older_count, begin_idx);
